@@ -144,7 +144,9 @@ pub fn foreign_doc(rng: &mut Rng, max_nodes: usize) -> Vec<u8> {
         *budget -= 1;
         // (no <p>: a block element inside it closes it implicitly and leaves a stray </p>, i.e. HTML that is not well nested;
         // html5ever's tree builder then reports an HTML adjusted current node after the integration point is closed)
-        let html_names: &[&str] = &["div", "b", "span", "x-y", "a", "verylongtagname12", "em", "i"];
+        // (no <a> either: an <a> start tag while another <a> is open runs the adoption agency algorithm, which closes the outer
+        // one and everything inside it, islands included -- HTML that is not well nested)
+        let html_names: &[&str] = &["div", "b", "span", "x-y", "section", "verylongtagname12", "em", "i"];
         let svg_names: &[&str] = &["g", "path", "circle", "x-unit", "text", "a", "font", "title", "desc", "foreignObject", "script", "style", "linearGradient", "font-face", "input", "link", "col"];
         let math_names: &[&str] = &["mrow", "mi", "mo", "mn", "ms", "mtext", "annotation-xml", "x-y", "mglyph", "font", "semantics", "source", "verylongmathname1"];
         let r = rng.below(12);
